@@ -1178,3 +1178,5 @@ def run(chk):
         from . import c16
         chk.guard("R10.9", "secret-key-texts", c16.check_secret_keys, chk, F, "R16.8", "R10.9")
         chk.guard("R10.10", "secret-descriptors", check_secret_descriptors, chk, F)
+        from . import wholedesc
+        chk.guard("R10.11", "wrapper-parsers", wholedesc.check_wrapper_parsers, chk, F, "R10.11")
